@@ -1,5 +1,5 @@
 (* Correspondence checkers for C05: model result vs the implementation's recorded result. *)
-From TeraV Require Import Model.Value Model.Instr Model.Component Gen.TypeTables.
+From TeraV Require Import Model.Value Model.Instr Model.Component Gen.TypeTables Spec.ComponentSpec.
 
 (* ---------------------------------------------------------------- canonical forms *)
 
@@ -65,9 +65,34 @@ Definition model_bind (c : bind_case) : res ctx :=
   | RErr e => RErr e
   end.
 
+(* the documented acceptance rule (Spec/ComponentSpec.v `accepts`) as a boolean, evaluated
+   directly on the implementation's verdict: this comparison does not go through the ported
+   build_context nor through the generated type tables, so it still finds a failing input when
+   the model follows a changed arm *)
+Definition is_some {A} (o : option A) : bool := match o with Some _ => true | None => false end.
+Definition accepts_b (d : comp_def) (keys : list str) (get : str -> option value) : bool :=
+  (forallb (declared d) keys || is_some (def_rest d)) &&
+  forallb (fun p => match get (p_name p) with
+                    | Some v => match spec_type p with Some t => doc_matches t v | None => true end
+                    | None => is_some (p_default p)
+                    end) (def_params d).
+
+Definition spec_verdict (c : bind_case) : option bool :=
+  let d := {| def_params := b_params c; def_rest := b_rest c |} in
+  if b_api c then Some (accepts_b d (ctx_keys (attrs_ctx (b_attrs c))) (ctx_get (attrs_ctx (b_attrs c))))
+  else if (20 <=? b_depth c)%nat then None
+  else match build_kwargs (b_attrs c) with
+       | ROk m => Some (accepts_b d (str_keys m) (kw_get m))
+       | RErr _ => None
+       end.
+
 Definition check_bind (c : bind_case) : bool :=
   list_eqb (opt_eqb ctype_eqb) (map effective_type (b_params c)) (b_types c) &&
-  res_eqb ctx_eqb (model_bind c) (b_impl c).
+  res_eqb ctx_eqb (model_bind c) (b_impl c) &&
+  match spec_verdict c with
+  | Some ok => Bool.eqb ok (match b_impl c with ROk _ => true | RErr _ => false end)
+  | None => true
+  end.
 
 (* ---------------------------------------------------------------- iso: what names resolve to *)
 
@@ -207,7 +232,7 @@ Definition call_sites_ok (c : chunk) : bool :=
 
 (* sh_body/sh_inline: how many call sites with / without a body the harness wrote into the
    source of this chunk; sh_marker: a literal the harness put in the body of the first body
-   call of this chunk: it must be written between a Capture and the EndCapture that precedes
+   call of this chunk (the text written there starts with it): it must be written between a Capture and the EndCapture that precedes
    the RenderBodyComponent *)
 Record shape_case := { sh_chunk : chunk; sh_body : nat; sh_inline : nat; sh_marker : option str }.
 
@@ -216,7 +241,7 @@ Fixpoint marker_captured (l : list instr) (m : str) (open : nat) : bool :=
   | [] => false
   | Capture :: t => marker_captured t m (S open)
   | EndCapture :: t => marker_captured t m (pred open)
-  | WriteText x :: t => if str_eqb x m then negb (Nat.eqb open 0) else marker_captured t m open
+  | WriteText x :: t => if starts_with x m then negb (Nat.eqb open 0) else marker_captured t m open
   | _ :: t => marker_captured t m open
   end.
 
